@@ -22,7 +22,10 @@ LeaderThorough ==
         m \in 0..1, n \in 1..136, c \in 1..16, a \in {66, 1000}, b \in {67, 5000} }
 
 VolumeAll  == { [nfp |-> n] : n \in 0..12 }
+\* low-resolution images of 4, 8, ... bytes; and images of DIFFERENT sample sizes whose lengths leave the following image at an odd offset
+\* or at 2 mod 4 (an image is decoded from the bytes its entry declares, whatever lies before it)
 TrailerAll == { [nlow |-> n, lens |-> [i \in 1..n |-> 4 * i]] : n \in 0..7 }
+         \cup { [nlow |-> 3, lens |-> <<3, 8, 6>>], [nlow |-> 4, lens |-> <<6, 4, 3, 8>>], [nlow |-> 2, lens |-> <<5, 4>>], [nlow |-> 5, lens |-> <<2, 4, 1, 2, 8>>] }
 ImageAll   == { [kind |-> kd, n |-> n, ndata |-> d, bps |-> b] : kd \in {"signal", "processed"}, n \in 0..3, d \in {8, 16}, b \in {2, 8} }
 
 QuickCases ==
